@@ -15,6 +15,7 @@ import Penguin.Lemmas.BindAllReach
 import Penguin.Lemmas.BindAllReach3
 import Penguin.Lemmas.BindAllConv
 import Penguin.Lemmas.BindAllClosed
+import Penguin.Lemmas.BindAllReach4
 
 namespace Penguin.C15
 open Penguin Penguin.Mux
@@ -747,5 +748,91 @@ theorem pair_bind_false_only_if_not_accepted_or_ended_single_reply (oa ob : Opts
     rcases hk with hk | hk
     · exact Or.inl ⟨hk, fun ht => hsingle k ⟨ht, hk⟩⟩
     · exact Or.inr hk
+
+
+/-! ### `false` only if not accepted, or ended — the FULL statement (the first answer counts)
+
+The ORDER layer of the invariant (`Lemmas/BindAllFacts4.lean`, `BindAllOrd.lean`, `BindAllOrdStep*.lean`,
+`BindAllReach4.lean`).  The atomic steps now never drop an answer frame (`Finish x` / `Reset x`) of a pending
+bind request from the inbox silently (`Shrinks.pops`; the simulation releases the slot before it pops), a
+delivery is ignored only by a view whose source has ended (`CStepL.dlv`, `deafV`; then the wire to it is
+closed: `Wires`), so the answers that can still reach the asking side — its inbox, then, while the wire is
+open, the wire and the peer's outbound queue (`BC.live`) — are a FIFO sequence that loses only suffixes
+(a cut, a dropped queue, an emit to a closed wire).  Invariant `Ord`: if the FIRST recorded reply on the
+`BindRequest` of `x` is `reply(true)` and `x`'s slot is pending, then the first answer for `x` on the live
+path is a `Finish`, or there is none and none can come any more.  So a `Reset x` at the head of the inbox of a
+side whose request is pending was not preceded by a `reply(true)`.  (This supplies what the doc comments of
+`…_partial` and `…_single_reply` above list as missing; those two theorems stay as they are.) -/
+
+open Penguin.BindAll Penguin.PairAll in
+/-- `false` ONLY IF one of four things happened, the FIRST answer counting — in every history.  If bind
+    request number `req` of side `a` resolved `refused`, then `a` made a request number `req` that drew a flow
+    id `x` and asked `(bt, host, port)`, and at least one of:
+    (d) `a`'s own connection task has finished (see `pair_bind_false_only_if_not_accepted_or_ended_partial`
+        for what that covers, and why no other local event refuses a bind request);
+    (a) `b`'s endpoint takes no binds; (b) `b`'s `Multiplexor` had been dropped;
+    (c) `b`'s application was shown a `BindRequest` (number `k`) with exactly `x`, `bt`, `host`, `port` and
+        - called `reply(false)` on it with NO `reply(true)` on that same `BindRequest` recorded BEFORE it
+          (the record `q.hb` splits as `g1 ++ replied k false :: g2` with no `replied k true` in `g1`;
+          `BindRequest::reply` takes `&self`, so an application can answer twice: the first answer counts), or
+        - dropped it WITHOUT EVER replying to it.
+    Both directions.  In particular a request the peer application accepted FIRST is never refused by a
+    later `reply(false)`: it resolves `accepted`, or stays pending until the requester's task ends. -/
+theorem pair_bind_false_only_if_not_accepted_or_ended (oa ob : Opts) {ra rb : List Nat} (cfg : PairAll.Cfg ra rb)
+    (l : List (PairAll.Side × PairAll.Stim)) (req : Nat) :
+    let q := runB { p := PairAll.init oa ob ra rb } l
+    (BEv.done req .refused ∈ q.ha →
+      ∃ x bt host port, BEv.asked req x bt host port ∈ q.ha ∧
+        (q.p.a.dead = true ∨ ob.bindCap = 0 ∨ BEv.muxDropped ∈ q.hb ∨
+         ∃ k, BEv.shown k x bt host port ∈ q.hb ∧
+           ((∃ g1 g2, q.hb = g1 ++ BEv.replied k false :: g2 ∧ BEv.replied k true ∉ g1) ∨
+            (BEv.dropped k ∈ q.hb ∧ ∀ acc, BEv.replied k acc ∉ q.hb)))) ∧
+    (BEv.done req .refused ∈ q.hb →
+      ∃ x bt host port, BEv.asked req x bt host port ∈ q.hb ∧
+        (q.p.b.dead = true ∨ oa.bindCap = 0 ∨ BEv.muxDropped ∈ q.ha ∨
+         ∃ k, BEv.shown k x bt host port ∈ q.ha ∧
+           ((∃ g1 g2, q.ha = g1 ++ BEv.replied k false :: g2 ∧ BEv.replied k true ∉ g1) ∨
+            (BEv.dropped k ∈ q.ha ∧ ∀ acc, BEv.replied k acc ∉ q.ha)))) := by
+  intro q
+  have h : Inv4 (absB q) := reach_inv4 oa ob cfg l
+  have hcap := runB_caps { p := PairAll.init oa ob ra rb } l
+  have one : ∀ (c : BC), Inv4 c → ∀ cap, c.b.bindCap = cap → BEv.done req .refused ∈ c.ga →
+      ∃ x bt host port, BEv.asked req x bt host port ∈ c.ga ∧
+        (c.a.dead = true ∨ cap = 0 ∨ BEv.muxDropped ∈ c.gb ∨
+         ∃ k, BEv.shown k x bt host port ∈ c.gb ∧
+           ((∃ g1 g2, c.gb = g1 ++ BEv.replied k false :: g2 ∧ BEv.replied k true ∉ g1) ∨
+            (BEv.dropped k ∈ c.gb ∧ ∀ acc, BEv.replied k acc ∉ c.gb))) := by
+    intro c hc cap hcp hd
+    obtain ⟨x, bt, host, port, ha, hw⟩ := hc.g4L req hd
+    refine ⟨x, bt, host, port, ha, ?_⟩
+    rcases hw with hw | hw | hw | ⟨k, bt', host', port', hs, hk⟩
+    · exact Or.inl hw
+    · exact Or.inr (Or.inl (hcp ▸ hw))
+    · exact Or.inr (Or.inr (Or.inl hw))
+    · obtain ⟨req', ha'⟩ := hc.base.base.l.asked x bt' host' port' (Or.inr (Or.inr (Or.inr ⟨k, hs⟩)))
+      have h1 : (sm x c).asA = 1 := ((hc.base.base.num x).l.binda (one_le_asked ha)).1
+      obtain ⟨_, e1, e2, e3⟩ := asked_unique (by simp only [sm] at h1; omega) ha ha'
+      subst e1 e2 e3
+      exact Or.inr (Or.inr (Or.inr ⟨k, hs, hk⟩))
+  exact ⟨one (absB q) h ob.bindCap hcap.2, one (absB q).swap h.swap oa.bindCap hcap.1⟩
+
+/-! Non-vacuity: the order matters.  `b`'s application answers the same `BindRequest` twice. -/
+open Penguin.BindAll Penguin.PairAll in
+/-- rejected FIRST, then accepted: the request resolves `refused` (and the late `Finish` is answered with a `Reset`) -/
+example :
+    let q := runB { p := PairAll.init {} allB [7, 8, 11] [9, 10] }
+      [askB, (.B, .deliver), (.B, .call .bindNext), (.B, .call (.bindReply 0 false)), (.B, .call (.bindReply 0 true)),
+       (.A, .deliver), (.A, .deliver)]
+    q.ha = [.asked 5 7 .stream [97] 81, .done 5 .refused] ∧
+    q.hb = [.shown 0 7 .stream [97] 81, .replied 0 false, .replied 0 true] ∧ q.p.a.dead = false := by decide
+
+open Penguin.BindAll Penguin.PairAll in
+/-- accepted FIRST, then rejected: the request resolves `accepted`; the late `Reset` finds no slot -/
+example :
+    let q := runB { p := PairAll.init {} allB [7, 8, 11] [9, 10] }
+      [askB, (.B, .deliver), (.B, .call .bindNext), (.B, .call (.bindReply 0 true)), (.B, .call (.bindReply 0 false)),
+       (.A, .deliver), (.A, .deliver)]
+    q.ha = [.asked 5 7 .stream [97] 81, .done 5 .accepted] ∧
+    q.hb = [.shown 0 7 .stream [97] 81, .replied 0 true, .replied 0 false] := by decide
 
 end Penguin.C15
